@@ -202,6 +202,40 @@ Definition certgen (st : server) (now : Z) (limiter_ok : bool) (q : certreq) : o
   end.
 End Expand.
 
+(* ---- the handler BEFORE the two repairs of this check (kept for the refutation witnesses):
+   (1) checkAuth returned the url.Parse error of the Origin/Referer header without writing a
+       response: the client saw an empty 200 (code 0 here = nothing written);
+   (2) writeFailureResponse rendered the second-factor page for HTML clients holding a valid
+       password or federated session without writing the 401 status (so: 200). *)
+Definition old_status (html : bool) (now : Z) (q : certreq) (code : N) : N :=
+  if (code =? 401) && html then
+    match q_cred q with
+    | Cookie t =>
+        if token_ok now t && negb (t_exp t <? now)%Z &&
+           (hasb (t_level t) bPassword || hasb (t_level t) bFederated) then 200 else code
+    | _ => code
+    end
+  else code.
+
+Definition certgen_old (expand : bs -> bs -> option bs) (html : bool) (st : server) (now : Z)
+                       (limiter_ok : bool) (q : certreq) : outcome :=
+  let bad_origin := match q_method q, q_origin q with
+                    | HGet, _ => false
+                    | _, BadOrigin => true
+                    | _, _ => false
+                    end in
+  if negb (s_sealed st) && bad_origin then Refused 0
+  else match certgen expand st now limiter_ok q with
+       | Refused c => Refused (old_status html now q c)
+       | r => r
+       end.
+
+(* lib/certgen before its repair: the two GeneralString tags of the PKINIT name were patched at
+   fixed offsets, right only while the whole value is shorter than 128 bytes, i.e. while
+   len(realm) + len(user) < 97; beyond that the extension no longer decodes *)
+Definition krb_san_old (realm user : bs) : option (bs * bs) :=
+  if N.of_nat (length realm + length user) <? 97 then Some (realm, user) else None.
+
 (* what the server publishes under /public/sshca and /public/x509ca *)
 Definition published (st : server) : list cakey :=
   CAMain :: (if s_ed25519_ca st then [CAEd25519] else []).
